@@ -816,3 +816,528 @@ Lemma e_unmodelled :
   rebuild (describe [] [e_X true true]) [mkymod (y_mod (e_X false false)) (e_ns e_x) [(e_a, None)]; e_A19; e_A20] [e_A19]
   = Err E_UNMODELLED.
 Proof. vm_compute. reflexivity. Qed.
+
+(* ------------------------------------------------------------------------------------------------ *)
+(* submodule graphs: the includes array of a module                                                  *)
+(* ------------------------------------------------------------------------------------------------ *)
+Definition akeys (a : iarr) : list nat := map fst a.
+Definition done_ (a : iarr) (k : nat) : Prop := arr_find k a = Some true.
+
+Lemma arr_find_none j a : arr_find j a = None <-> ~ In j (akeys a).
+Proof.
+  induction a as [|[k p] a IH]; cbn; [tauto|].
+  destruct (Nat.eqb k j) eqn:E.
+  - apply Nat.eqb_eq in E. split; [discriminate|]. intros H. exfalso. apply H. left. exact E.
+  - apply Nat.eqb_neq in E. rewrite IH. tauto.
+Qed.
+
+Lemma arr_find_in j a b : arr_find j a = Some b -> In j (akeys a).
+Proof.
+  intros H. destruct (in_dec Nat.eq_dec j (akeys a)) as [Hi|Hn]; [exact Hi|].
+  apply arr_find_none in Hn. congruence.
+Qed.
+
+Lemma in_arr_find j a : In j (akeys a) -> exists b, arr_find j a = Some b.
+Proof.
+  intros H. destruct (arr_find j a) as [b|] eqn:E; [eauto|]. apply arr_find_none in E. contradiction.
+Qed.
+
+Lemma akeys_fill j a : akeys (arr_fill j a) = akeys a.
+Proof.
+  unfold akeys, arr_fill. rewrite map_map. apply map_ext. intros [k p]. cbn.
+  destruct (Nat.eqb k j) eqn:E; [apply Nat.eqb_eq in E; subst; reflexivity|reflexivity].
+Qed.
+
+Lemma arr_find_fill j k a :
+  arr_find k (arr_fill j a) = if Nat.eqb k j then (match arr_find k a with Some _ => Some true | None => None end)
+                              else arr_find k a.
+Proof.
+  induction a as [|[i p] a IH]; [cbn; destruct (Nat.eqb k j); reflexivity|].
+  change (arr_fill j ((i, p) :: a)) with ((if Nat.eqb i j then (j, true) else (i, p)) :: arr_fill j a).
+  destruct (Nat.eqb i j) eqn:Eij; cbn [arr_find].
+  - apply Nat.eqb_eq in Eij. subst i. destruct (Nat.eqb j k) eqn:Ejk.
+    + apply Nat.eqb_eq in Ejk. subst k. rewrite Nat.eqb_refl. reflexivity.
+    + exact IH.
+  - destruct (Nat.eqb i k) eqn:Eik.
+    + apply Nat.eqb_eq in Eik. subst i. rewrite Eij. reflexivity.
+    + exact IH.
+Qed.
+
+Lemma fill_done j a : In j (akeys a) -> done_ (arr_fill j a) j.
+Proof.
+  intros H. unfold done_. rewrite arr_find_fill, Nat.eqb_refl. destruct (in_arr_find j a H) as [b ->]. reflexivity.
+Qed.
+
+Lemma fill_done_mono j a k : done_ a k -> done_ (arr_fill j a) k.
+Proof.
+  unfold done_. intros H. rewrite arr_find_fill, H. destruct (Nat.eqb k j); reflexivity.
+Qed.
+
+Lemma arr_find_app k a j :
+  arr_find k (a ++ [(j, true)]) = match arr_find k a with Some b => Some b | None => if Nat.eqb j k then Some true else None end.
+Proof.
+  induction a as [|[i p] a IH]; cbn; [reflexivity|]. destruct (Nat.eqb i k); [reflexivity|exact IH].
+Qed.
+
+Lemma inject_keys_in j a : In j (akeys a) -> akeys (arr_inject j a) = akeys a.
+Proof.
+  intros H. unfold arr_inject. destruct (in_arr_find j a H) as [b ->]. apply akeys_fill.
+Qed.
+
+Lemma inject_keys_new j a : ~ In j (akeys a) -> akeys (arr_inject j a) = akeys a ++ [j].
+Proof.
+  intros H. unfold arr_inject. apply arr_find_none in H. rewrite H. unfold akeys. rewrite map_app. reflexivity.
+Qed.
+
+Lemma inject_done j a : done_ (arr_inject j a) j.
+Proof.
+  unfold arr_inject. destruct (arr_find j a) as [b|] eqn:E.
+  - apply fill_done. exact (arr_find_in _ _ _ E).
+  - unfold done_. rewrite arr_find_app, E, Nat.eqb_refl. reflexivity.
+Qed.
+
+Lemma inject_done_mono j a k : done_ a k -> done_ (arr_inject j a) k.
+Proof.
+  unfold arr_inject. intros H. destruct (arr_find j a); [apply fill_done_mono; exact H|].
+  unfold done_ in *. rewrite arr_find_app, H. reflexivity.
+Qed.
+
+Lemma inject_keys_cases j a k : In k (akeys (arr_inject j a)) <-> In k (akeys a) \/ k = j.
+Proof.
+  destruct (in_dec Nat.eq_dec j (akeys a)) as [Hi|Hn].
+  - rewrite (inject_keys_in j a Hi). split; [auto|]. intros [H| ->]; assumption.
+  - rewrite (inject_keys_new j a Hn), in_app_iff. cbn. split.
+    + intros [H|[<-|[]]]; [left; exact H|right; reflexivity].
+    + intros [H| ->]; [left; exact H|right; left; reflexivity].
+Qed.
+
+Lemma inject_nodup j a : NoDup (akeys a) -> NoDup (akeys (arr_inject j a)).
+Proof.
+  intros H. destruct (in_dec Nat.eq_dec j (akeys a)) as [Hi|Hn].
+  - rewrite (inject_keys_in j a Hi). exact H.
+  - rewrite (inject_keys_new j a Hn). apply NoDup_app_one; assumption.
+Qed.
+
+(* a' extends a: the same keys at the same positions, possibly more at the end; parsed stays parsed *)
+Definition aext (a a' : iarr) : Prop :=
+  (exists e, akeys a' = akeys a ++ e) /\ (forall k, done_ a k -> done_ a' k).
+
+Lemma aext_refl a : aext a a.
+Proof. split; [exists []; rewrite app_nil_r; reflexivity|auto]. Qed.
+
+Lemma aext_trans a b c : aext a b -> aext b c -> aext a c.
+Proof.
+  intros [[e1 H1] D1] [[e2 H2] D2]. split; [|auto].
+  exists (e1 ++ e2). rewrite H2, H1, app_assoc. reflexivity.
+Qed.
+
+Lemma aext_inject j a : aext a (arr_inject j a).
+Proof.
+  split; [|intros k; apply inject_done_mono].
+  destruct (in_dec Nat.eq_dec j (akeys a)) as [Hi|Hn].
+  - exists []. rewrite (inject_keys_in j a Hi), app_nil_r. reflexivity.
+  - exists [j]. apply inject_keys_new. exact Hn.
+Qed.
+
+Lemma aext_fill j a : aext a (arr_fill j a).
+Proof. split; [exists []; rewrite akeys_fill, app_nil_r; reflexivity|intros k; apply fill_done_mono]. Qed.
+
+Lemma aext_incl a a' k : aext a a' -> In k (akeys a) -> In k (akeys a').
+Proof. intros [[e H] _] Hi. rewrite H. apply in_app_iff. left. exact Hi. Qed.
+
+Lemma nth_find u a j b : NoDup (akeys a) -> nth_error a u = Some (j, b) -> arr_find j a = Some b.
+Proof.
+  revert u; induction a as [|[k p] a IH]; intros [|u] Hnd H; cbn in *; try discriminate.
+  - injection H as -> ->. rewrite Nat.eqb_refl. reflexivity.
+  - inversion Hnd as [|? ? Hk Hr]; subst.
+    destruct (Nat.eqb k j) eqn:E.
+    + apply Nat.eqb_eq in E. subst k. exfalso. apply Hk. apply nth_error_In in H. apply (in_map fst) in H. exact H.
+    + apply (IH u); assumption.
+Qed.
+
+Section SubGraph.
+  Variable incs : list (list nat).
+  Let n := length incs.
+  Definition inc_of (k : nat) : list nat := nth k incs [].
+
+  (* include statements name existing submodules (1 .. n-1) and not the (sub)module itself *)
+  Definition wf_incs : Prop := forall k j, In j (inc_of k) -> (1 <= j < n)%nat /\ j <> k.
+
+  (* the include closure of the module *)
+  Inductive sreach : nat -> Prop :=
+  | sr_main j : In j (inc_of O) -> sreach j
+  | sr_step k j : sreach k -> In j (inc_of k) -> sreach j.
+
+  Hypothesis Hwf : wf_incs.
+
+  Lemma sreach_range j : sreach j -> (1 <= j < n)%nat.
+  Proof. intros [j' H|k j' _ H]; apply (Hwf _ _ H). Qed.
+
+  (* distinct numbers in 1 .. n-1 are at most n-1 *)
+  Lemma range_length (l : list nat) : NoDup l -> (forall x, In x l -> (1 <= x < n)%nat) -> (length l <= n - 1)%nat.
+  Proof.
+    intros Hnd Hr. rewrite <- (seq_length (n - 1) 1). apply NoDup_incl_length; [exact Hnd|].
+    intros x Hx. apply in_seq. specialize (Hr x Hx). lia.
+  Qed.
+
+  Definition AInv (a : iarr) : Prop := NoDup (akeys a) /\ forall j, In j (akeys a) -> sreach j.
+  (* every parsed submodule has its includes in the array, or they are being parsed (stack) *)
+  Definition AClosed (stack : list nat) (a : iarr) : Prop :=
+    forall k, done_ a k -> forall j, In j (inc_of k) -> In j (akeys a) \/ In j stack.
+
+  Lemma aclosed_weaken st x a : AClosed st a -> AClosed (x :: st) a.
+  Proof. intros H k Hk j Hj. destruct (H k Hk j Hj); [left|right; right]; assumption. Qed.
+
+  Definition SubPost (early : bool) (stack : list nat) (cur : nat) (a a' : iarr) : Prop :=
+    AInv a' /\ aext a a' /\
+    (early = false -> AClosed (cur :: stack) a -> AClosed (cur :: stack) a' /\
+                      forall j, In j (inc_of cur) -> In j (akeys a') \/ In j stack).
+
+  Lemma parse_sub_spec early v11 : forall fuel stack cur a,
+    AInv a -> sreach cur -> NoDup (cur :: stack) -> (forall x, In x stack -> sreach x) ->
+    (n <= fuel + length stack)%nat ->
+    match parse_sub fuel early v11 incs stack cur a with
+    | Ok a' => SubPost early stack cur a a'
+    | Err _ => v11 = true
+    end.
+  Proof.
+    induction fuel as [|fuel IH]; intros stack cur a Hinv Hcur Hnd Hst Hfuel.
+    { exfalso. assert (Hl : (length (cur :: stack) <= n - 1)%nat).
+      { apply range_length; [exact Hnd|]. intros x [<-|Hx]; apply sreach_range; auto. }
+      cbn in Hl, Hfuel. pose proof (sreach_range cur Hcur). lia. }
+    cbn [parse_sub]. fold (inc_of cur).
+    set (step := fun (a0 : iarr) (j : nat) =>
+      match arr_find j a0 with
+      | Some true => Ok (a0, early)
+      | found =>
+          if match found with None => v11 | Some _ => false end then Err E_SUB11
+          else if existsb (Nat.eqb j) stack then Ok (a0, early)
+          else match parse_sub fuel early v11 incs (cur :: stack) j a0 with
+               | Err e => Err e
+               | Ok a1 => Ok (arr_inject j a1, false)
+               end
+      end).
+    (* the loop over a suffix of the includes of cur *)
+    assert (Hloop : forall is a0, (forall j, In j is -> In j (inc_of cur)) -> AInv a0 ->
+      match sub_loop step is a0 with
+      | Ok a' => AInv a' /\ aext a0 a' /\
+                 (early = false -> AClosed (cur :: stack) a0 -> AClosed (cur :: stack) a' /\
+                                   forall j, In j is -> In j (akeys a') \/ In j stack)
+      | Err _ => v11 = true
+      end).
+    { induction is as [|j is IHis]; intros a0 Hsub Hinv0; cbn [sub_loop].
+      - split; [exact Hinv0|]. split; [apply aext_refl|]. intros _ Hc. split; [exact Hc|]. intros j [].
+      - assert (Hj : In j (inc_of cur)) by (apply Hsub; left; reflexivity).
+        assert (Hjr : sreach j) by (eapply sr_step; eassumption).
+        assert (Hsub' : forall j0, In j0 is -> In j0 (inc_of cur)) by (intros j0 Hj0; apply Hsub; right; exact Hj0).
+        (* the cases in which nothing is parsed: the include is present and parsed, or it is an ancestor *)
+        assert (Hskip : forall (Hpres : In j (akeys a0) \/ In j stack),
+                  match (if early then Ok a0 else sub_loop step is a0) with
+                  | Ok a' => AInv a' /\ aext a0 a' /\
+                             (early = false -> AClosed (cur :: stack) a0 -> AClosed (cur :: stack) a' /\
+                                forall j0, In j0 (j :: is) -> In j0 (akeys a') \/ In j0 stack)
+                  | Err _ => v11 = true
+                  end).
+        { intros Hpres. destruct early.
+          - split; [exact Hinv0|]. split; [apply aext_refl|]. discriminate.
+          - specialize (IHis a0 Hsub' Hinv0). destruct (sub_loop step is a0) as [a'|e]; [|exact IHis].
+            destruct IHis as (I1 & I2 & I3). split; [exact I1|]. split; [exact I2|].
+            intros He Hc. destruct (I3 He Hc) as [C1 C2]. split; [exact C1|].
+            intros j0 [<-|Hj0]; [|apply C2; exact Hj0].
+            destruct Hpres as [Hp|Hp]; [left; eapply aext_incl; eassumption|right; exact Hp]. }
+        unfold step at 1.
+        destruct (arr_find j a0) as [[|]|] eqn:Ef.
+        + (* parsed in the module *)
+          apply Hskip. left. exact (arr_find_in _ _ _ Ef).
+        + (* listed by the module, not parsed yet *)
+          destruct (existsb (Nat.eqb j) stack) eqn:Est.
+          * apply Hskip. right. apply existsb_exists in Est. destruct Est as (x & Hx & E). apply Nat.eqb_eq in E. subst x. exact Hx.
+          * assert (Hjn : ~ In j stack).
+            { intros Hin. assert (existsb (Nat.eqb j) stack = true) by (apply existsb_exists; exists j; split; [exact Hin|apply Nat.eqb_refl]). congruence. }
+            assert (Hjc : j <> cur) by (apply (Hwf _ _ Hj)).
+            specialize (IH (cur :: stack) j a0 Hinv0 Hjr).
+            assert (Hnd' : NoDup (j :: cur :: stack)).
+            { constructor; [|exact Hnd]. intros [E|Hin]; [congruence|contradiction]. }
+            assert (Hst' : forall x, In x (cur :: stack) -> sreach x) by (intros x [<-|Hx]; auto).
+            specialize (IH Hnd' Hst'). cbn [length] in IH. specialize (IH ltac:(lia)).
+            destruct (parse_sub fuel early v11 incs (cur :: stack) j a0) as [a1|e]; [|exact IH].
+            destruct IH as (J1 & J2 & J3).
+            assert (Hinv2 : AInv (arr_inject j a1)).
+            { split; [apply inject_nodup; apply J1|]. intros k Hk. apply inject_keys_cases in Hk.
+              destruct Hk as [Hk| ->]; [apply J1; exact Hk|exact Hjr]. }
+            specialize (IHis (arr_inject j a1) Hsub' Hinv2).
+            destruct (sub_loop step is (arr_inject j a1)) as [a'|e]; [|exact IHis].
+            destruct IHis as (I1 & I2 & I3). split; [exact I1|].
+            assert (Hext : aext a0 (arr_inject j a1)) by (eapply aext_trans; [exact J2|apply aext_inject]).
+            split; [eapply aext_trans; eassumption|].
+            intros He Hc. destruct (J3 He (aclosed_weaken _ j _ Hc)) as [K1 K2].
+            assert (Hc2 : AClosed (cur :: stack) (arr_inject j a1)).
+            { intros k Hk i Hi.
+              destruct (Nat.eq_dec k j) as [->|Hkj].
+              - destruct (K2 i Hi) as [Hp|Hp]; [left; apply inject_keys_cases; left; exact Hp|right; exact Hp].
+              - assert (Hk1 : done_ a1 k).
+                { unfold done_, arr_inject in *. destruct (arr_find j a1).
+                  - rewrite arr_find_fill in Hk. apply Nat.eqb_neq in Hkj. rewrite Hkj in Hk. exact Hk.
+                  - rewrite arr_find_app in Hk. destruct (arr_find k a1) as [b|]; [exact Hk|].
+                    destruct (Nat.eqb j k) eqn:E; [apply Nat.eqb_eq in E; congruence|discriminate]. }
+                destruct (K1 k Hk1 i Hi) as [Hp|[<-|Hp]].
+                + left. apply inject_keys_cases. left. exact Hp.
+                + left. apply inject_keys_cases. right. reflexivity.
+                + right. exact Hp. }
+            destruct (I3 He Hc2) as [C1 C2]. split; [exact C1|].
+            intros j0 [<-|Hj0]; [|apply C2; exact Hj0].
+            left. eapply aext_incl; [exact I2|]. apply inject_keys_cases. right. reflexivity.
+        + (* not listed by the module *)
+          destruct v11; [reflexivity|].
+          destruct (existsb (Nat.eqb j) stack) eqn:Est.
+          * apply Hskip. right. apply existsb_exists in Est. destruct Est as (x & Hx & E). apply Nat.eqb_eq in E. subst x. exact Hx.
+          * assert (Hjn : ~ In j stack).
+            { intros Hin. assert (existsb (Nat.eqb j) stack = true) by (apply existsb_exists; exists j; split; [exact Hin|apply Nat.eqb_refl]). congruence. }
+            assert (Hjc : j <> cur) by (apply (Hwf _ _ Hj)).
+            specialize (IH (cur :: stack) j a0 Hinv0 Hjr).
+            assert (Hnd' : NoDup (j :: cur :: stack)).
+            { constructor; [|exact Hnd]. intros [E|Hin]; [congruence|contradiction]. }
+            assert (Hst' : forall x, In x (cur :: stack) -> sreach x) by (intros x [<-|Hx]; auto).
+            specialize (IH Hnd' Hst'). cbn [length] in IH. specialize (IH ltac:(lia)).
+            destruct (parse_sub fuel early false incs (cur :: stack) j a0) as [a1|e]; [|exact IH].
+            destruct IH as (J1 & J2 & J3).
+            assert (Hinv2 : AInv (arr_inject j a1)).
+            { split; [apply inject_nodup; apply J1|]. intros k Hk. apply inject_keys_cases in Hk.
+              destruct Hk as [Hk| ->]; [apply J1; exact Hk|exact Hjr]. }
+            specialize (IHis (arr_inject j a1) Hsub' Hinv2).
+            destruct (sub_loop step is (arr_inject j a1)) as [a'|e]; [|exact IHis].
+            destruct IHis as (I1 & I2 & I3). split; [exact I1|].
+            assert (Hext : aext a0 (arr_inject j a1)) by (eapply aext_trans; [exact J2|apply aext_inject]).
+            split; [eapply aext_trans; eassumption|].
+            intros He Hc. destruct (J3 He (aclosed_weaken _ j _ Hc)) as [K1 K2].
+            assert (Hc2 : AClosed (cur :: stack) (arr_inject j a1)).
+            { intros k Hk i Hi.
+              destruct (Nat.eq_dec k j) as [->|Hkj].
+              - destruct (K2 i Hi) as [Hp|Hp]; [left; apply inject_keys_cases; left; exact Hp|right; exact Hp].
+              - assert (Hk1 : done_ a1 k).
+                { unfold done_, arr_inject in *. destruct (arr_find j a1).
+                  - rewrite arr_find_fill in Hk. apply Nat.eqb_neq in Hkj. rewrite Hkj in Hk. exact Hk.
+                  - rewrite arr_find_app in Hk. destruct (arr_find k a1) as [b|]; [exact Hk|].
+                    destruct (Nat.eqb j k) eqn:E; [apply Nat.eqb_eq in E; congruence|discriminate]. }
+                destruct (K1 k Hk1 i Hi) as [Hp|[<-|Hp]].
+                + left. apply inject_keys_cases. left. exact Hp.
+                + left. apply inject_keys_cases. right. reflexivity.
+                + right. exact Hp. }
+            destruct (I3 He Hc2) as [C1 C2]. split; [exact C1|].
+            intros j0 [<-|Hj0]; [|apply C2; exact Hj0].
+            left. eapply aext_incl; [exact I2|]. apply inject_keys_cases. right. reflexivity. }
+    specialize (Hloop (inc_of cur) a (fun j H => H) Hinv).
+    destruct (sub_loop step (inc_of cur) a) as [a'|e]; [|exact Hloop].
+    exact Hloop.
+  Qed.
+  Definition AllDoneBefore (u : nat) (a : iarr) : Prop :=
+    forall i j, (i < u)%nat -> nth_error (akeys a) i = Some j -> done_ a j.
+
+  Lemma ainv_length a : AInv a -> (length a <= n - 1)%nat.
+  Proof.
+    intros [Hnd Hr]. rewrite <- (map_length fst a). apply range_length; [exact Hnd|].
+    intros x Hx. apply sreach_range. apply Hr. exact Hx.
+  Qed.
+
+  Lemma aext_nth a a' i : aext a a' -> (i < length a)%nat -> nth_error (akeys a') i = nth_error (akeys a) i.
+  Proof.
+    intros [[e H] _] Hi. rewrite H. apply nth_error_app1. unfold akeys. rewrite map_length. exact Hi.
+  Qed.
+
+  Lemma main_loop_spec early v11 : forall fuel u a,
+    AInv a -> (n + 1 <= fuel + u)%nat -> (u <= length a)%nat -> AllDoneBefore u a ->
+    match main_loop fuel early v11 incs u a with
+    | Ok a' => AInv a' /\ aext a a' /\ (forall j, In j (akeys a') -> done_ a' j) /\
+               (early = false -> AClosed [] a -> AClosed [] a')
+    | Err _ => v11 = true
+    end.
+  Proof.
+    induction fuel as [|fuel IH]; intros u a Hinv Hf Hu Hdone.
+    { pose proof (ainv_length a Hinv). lia. }
+    cbn [main_loop]. destruct (nth_error a u) as [[j b]|] eqn:En.
+    - assert (Hul : (u < length a)%nat) by (apply nth_error_Some; congruence).
+      assert (Hkey : nth_error (akeys a) u = Some j) by (unfold akeys; rewrite (map_nth_error fst u a En); reflexivity).
+      assert (Hfind : arr_find j a = Some b) by (apply (nth_find u); [apply Hinv|exact En]).
+      destruct b.
+      + (* already parsed *)
+        apply IH; [exact Hinv|lia|lia|].
+        intros i j0 Hi Hn. destruct (Nat.eq_dec i u) as [->|Hne]; [|apply (Hdone i); [lia|exact Hn]].
+        rewrite Hkey in Hn. injection Hn as <-. exact Hfind.
+      + assert (Hjr : sreach j) by (apply Hinv; eapply arr_find_in; exact Hfind).
+        pose proof (parse_sub_spec early v11 (S (length incs)) [] j a Hinv Hjr) as Hp.
+        assert (Hnd1 : NoDup [j]) by (constructor; [intros []|constructor]).
+        specialize (Hp Hnd1 (fun x H => match H with end)). cbn [length] in Hp. specialize (Hp ltac:(fold n; lia)).
+        destruct (parse_sub (S (length incs)) early v11 incs [] j a) as [a1|e]; [|exact Hp].
+        destruct Hp as (J1 & J2 & J3).
+        assert (Hj1 : In j (akeys a1)) by (eapply aext_incl; [exact J2|eapply arr_find_in; exact Hfind]).
+        assert (Hinv2 : AInv (arr_fill j a1)) by (unfold AInv; rewrite akeys_fill; exact J1).
+        assert (Hext : aext a (arr_fill j a1)) by (eapply aext_trans; [exact J2|apply aext_fill]).
+        specialize (IH (S u) (arr_fill j a1) Hinv2 ltac:(lia)).
+        assert (Hlen : (S u <= length (arr_fill j a1))%nat).
+        { unfold arr_fill. rewrite map_length. destruct J2 as [[e He] _].
+          assert (Hl : length (akeys a1) = (length (akeys a) + length e)%nat) by (rewrite He, app_length; reflexivity).
+          unfold akeys in Hl. rewrite !map_length in Hl. lia. }
+        specialize (IH Hlen).
+        assert (Hdone2 : AllDoneBefore (S u) (arr_fill j a1)).
+        { intros i j0 Hi Hn. rewrite (aext_nth a _ i Hext) in Hn by lia.
+          destruct (Nat.eq_dec i u) as [->|Hne].
+          - rewrite Hkey in Hn. injection Hn as <-. apply fill_done. exact Hj1.
+          - apply Hext. apply (Hdone i); [lia|exact Hn]. }
+        specialize (IH Hdone2).
+        destruct (main_loop fuel early v11 incs (S u) (arr_fill j a1)) as [a'|e]; [|exact IH].
+        destruct IH as (I1 & I2 & I3 & I4). split; [exact I1|]. split; [eapply aext_trans; eassumption|].
+        split; [exact I3|]. intros He Hc. apply (I4 He).
+        destruct (J3 He (aclosed_weaken _ j _ Hc)) as [K1 K2].
+        intros k Hk i Hi.
+        destruct (Nat.eq_dec k j) as [->|Hkj].
+        * destruct (K2 i Hi) as [Hp|[]]. left. rewrite akeys_fill. exact Hp.
+        * assert (Hk1 : done_ a1 k).
+          { unfold done_ in *. rewrite arr_find_fill in Hk. apply Nat.eqb_neq in Hkj. rewrite Hkj in Hk. exact Hk. }
+          left. rewrite akeys_fill. destruct (K1 k Hk1 i Hi) as [Hp|[<-|[]]]; [exact Hp|exact Hj1].
+    - (* the end of the array *)
+      assert (Hul : (length a <= u)%nat) by (apply nth_error_None; exact En).
+      split; [exact Hinv|]. split; [apply aext_refl|]. split; [|auto].
+      intros j Hj. apply In_nth_error in Hj. destruct Hj as [i Hi].
+      apply (Hdone i j); [|exact Hi].
+      assert (Hlt : (i < length (akeys a))%nat) by (apply nth_error_Some; congruence).
+      unfold akeys in Hlt. rewrite map_length in Hlt. lia.
+  Qed.
+
+  Lemma initial_not_done l k : ~ done_ (map (fun j => (j, false)) l) k.
+  Proof. unfold done_. induction l as [|x l IH]; cbn; [discriminate|]. destruct (Nat.eqb x k); [discriminate|exact IH]. Qed.
+
+  (* the final includes array: every entry once, only submodules of the include closure; without the early
+     return all of them; refused graphs only in YANG 1.1 *)
+  Theorem includes_order_spec early v11 : NoDup (inc_of O) ->
+    match includes_order_gen early v11 incs with
+    | Ok l => NoDup l /\ (forall j, In j l -> sreach j) /\ (early = false -> forall j, sreach j -> In j l)
+    | Err _ => v11 = true
+    end.
+  Proof.
+    intros Hnd0. unfold includes_order_gen. fold (inc_of O).
+    set (a0 := map (fun j => (j, false)) (inc_of O)).
+    assert (Hk0 : akeys a0 = inc_of O).
+    { unfold a0, akeys. rewrite map_map. cbn [fst]. apply map_id. }
+    assert (Hinv0 : AInv a0).
+    { split; [rewrite Hk0; exact Hnd0|]. intros j Hj. rewrite Hk0 in Hj. apply sr_main. exact Hj. }
+    pose proof (main_loop_spec early v11 (S (length incs)) O a0 Hinv0) as H.
+    specialize (H ltac:(fold n; lia) ltac:(lia) (fun i j Hi _ => match Nat.nlt_0_r i Hi with end)).
+    destruct (main_loop (S (length incs)) early v11 incs O a0) as [a'|e]; [|exact H].
+    destruct H as (I1 & I2 & I3 & I4). fold (akeys a').
+    split; [apply I1|]. split; [apply I1|].
+    intros He j Hj.
+    assert (Hc : AClosed [] a') by (apply (I4 He); intros k Hk; exfalso; exact (initial_not_done _ _ Hk)).
+    induction Hj as [j Hj|k j Hk IHk Hj].
+    - eapply aext_incl; [exact I2|]. rewrite Hk0. exact Hj.
+    - destruct (Hc k (I3 k IHk) j Hj) as [Hp|[]]. exact Hp.
+  Qed.
+End SubGraph.
+
+(* ---- the feature list of the description for a module given by its submodule graph ---- *)
+(* [gs] = the feature arrays by (sub)module number (0 = the module); the context holds them in the order of the
+   final includes array; ylib_feature() lists the enabled features of all of them *)
+Definition listed_features (gs : list (list feat)) (order : list nat) : list bytes :=
+  enabled_names (concat (nth O gs [] :: regroup gs order)).
+
+Lemma nodup_app_inv {A} (l l' : list A) : NoDup (l ++ l') -> NoDup l /\ NoDup l' /\ forall x, In x l -> ~ In x l'.
+Proof.
+  induction l as [|a l IH]; cbn; intros H.
+  - split; [constructor|]. split; [exact H|]. intros x [].
+  - inversion H as [|? ? Ha Hr]; subst. destruct (IH Hr) as (H1 & H2 & H3).
+    split; [constructor; [intros Hi; apply Ha; apply in_app_iff; left; exact Hi|exact H1]|].
+    split; [exact H2|]. intros x [<-|Hx]; [intros Hi; apply Ha; apply in_app_iff; right; exact Hi|apply H3; exact Hx].
+Qed.
+
+Lemma nodup_app_intro {A} (l l' : list A) : NoDup l -> NoDup l' -> (forall x, In x l -> ~ In x l') -> NoDup (l ++ l').
+Proof.
+  induction l as [|a l IH]; cbn; intros H1 H2 H3; [exact H2|].
+  inversion H1 as [|? ? Ha Hr]; subst. constructor.
+  - intros Hi. apply in_app_iff in Hi. destruct Hi as [Hi|Hi]; [contradiction|]. apply (H3 a); [left; reflexivity|exact Hi].
+  - apply IH; [exact Hr|exact H2|]. intros x Hx. apply H3. right. exact Hx.
+Qed.
+
+Lemma nodup_names_pick (gs : list (list feat)) : NoDup (map f_name (concat gs)) ->
+  forall idx, NoDup idx -> NoDup (map f_name (concat (map (fun j => nth j gs []) idx))).
+Proof.
+  intros Hnd.
+  (* names of different arrays are different, every array has distinct names *)
+  assert (Hone : forall i, NoDup (map f_name (nth i gs []))).
+  { clear - Hnd. induction gs as [|g gs IHg]; intros i; [destruct i; constructor|].
+    cbn [concat] in Hnd. rewrite map_app in Hnd. destruct (nodup_app_inv _ _ Hnd) as (H1 & H2 & _).
+    destruct i as [|i]; [exact H1|apply IHg; exact H2]. }
+  assert (Hdis : forall i j x, i <> j -> In x (map f_name (nth i gs [])) -> ~ In x (map f_name (nth j gs []))).
+  { clear - Hnd. induction gs as [|g gs IHg]; intros i j x Hij Hi Hj; [destruct i; destruct Hi|].
+    cbn [concat] in Hnd. rewrite map_app in Hnd. destruct (nodup_app_inv _ _ Hnd) as (H1 & H2 & H3).
+    assert (Hsub : forall k y, In y (map f_name (nth k gs [])) -> In y (map f_name (concat gs))).
+    { intros k y Hy. apply in_map_iff in Hy. destruct Hy as (f & Hf & Hin). apply in_map_iff. exists f. split; [exact Hf|].
+      apply in_concat. exists (nth k gs []). split; [|exact Hin].
+      destruct (nth_in_or_default k gs []) as [H|E]; [exact H|rewrite E in Hin; destruct Hin]. }
+    destruct i as [|i], j as [|j]; cbn [nth] in *; try congruence.
+    - apply (H3 x Hi). apply (Hsub j). exact Hj.
+    - apply (H3 x Hj). apply (Hsub i). exact Hi.
+    - apply (IHg H2 i j x); [congruence|exact Hi|exact Hj]. }
+  induction idx as [|i idx IH]; intros Hi; cbn [map concat]; [constructor|].
+  inversion Hi as [|? ? Hni Hr]; subst. rewrite map_app.
+  apply nodup_app_intro; [apply Hone|apply IH; exact Hr|].
+  intros x Hx Hx'. apply in_map_iff in Hx'. destruct Hx' as (f' & Hf' & Hin').
+  apply in_concat in Hin'. destruct Hin' as (g' & Hg' & Hfg').
+  apply in_map_iff in Hg'. destruct Hg' as (j & <- & Hj).
+  apply (Hdis i j x); [intros ->; contradiction|exact Hx|].
+  apply in_map_iff. exists f'. split; assumption.
+Qed.
+
+(* the description lists every enabled feature of the module and of the submodules of its include closure, each
+   exactly once (given distinct feature names in the module, which the parser checks, and without the early return
+   in the include loop); as coded it lists no feature twice and only features of the closure *)
+Theorem listed_features_spec incs (gs : list (list feat)) early v11 :
+  wf_incs incs -> NoDup (inc_of incs O) -> NoDup (map f_name (concat gs)) ->
+  match includes_order_gen early v11 incs with
+  | Ok order =>
+      NoDup (listed_features gs order) /\
+      (forall x, In x (listed_features gs order) ->
+         exists k f, (k = O \/ sreach incs k) /\ In f (nth k gs []) /\ f_en f = true /\ f_name f = x) /\
+      (early = false -> forall k f, (k = O \/ sreach incs k) -> In f (nth k gs []) -> f_en f = true ->
+         In (f_name f) (listed_features gs order))
+  | Err _ => v11 = true
+  end.
+Proof.
+  intros Hwf Hnd0 Hnames.
+  pose proof (includes_order_spec incs Hwf early v11 Hnd0) as H.
+  destruct (includes_order_gen early v11 incs) as [order|e]; [|exact H].
+  destruct H as (Ho1 & Ho2 & Ho3).
+  assert (H0 : ~ In O order).
+  { intros Hi. pose proof (sreach_range incs Hwf O (Ho2 O Hi)). lia. }
+  assert (Hidx : NoDup (O :: order)) by (constructor; assumption).
+  unfold listed_features, regroup.
+  change (nth O gs [] :: map (fun j => nth j gs []) order) with (map (fun j => nth j gs []) (O :: order)).
+  split; [|split].
+  - unfold enabled_names. apply nodup_map_filter. apply nodup_names_pick; assumption.
+  - intros x Hx. unfold enabled_names in Hx. apply in_map_iff in Hx. destruct Hx as (f & Hf & Hin).
+    apply filter_In in Hin. destruct Hin as [Hin Hen]. apply in_concat in Hin. destruct Hin as (g & Hg & Hfg).
+    apply in_map_iff in Hg. destruct Hg as (k & <- & Hk).
+    exists k, f. split; [destruct Hk as [<-|Hk]; [left; reflexivity|right; apply Ho2; exact Hk]|]. repeat split; assumption.
+  - intros He k f Hk Hin Hen. unfold enabled_names. apply in_map_iff. exists f. split; [reflexivity|].
+    apply filter_In. split; [|exact Hen]. apply in_concat. exists (nth k gs []). split; [|exact Hin].
+    apply in_map_iff. exists k. split; [reflexivity|]. destruct Hk as [->|Hk]; [left; reflexivity|right; apply (Ho3 He); exact Hk].
+Qed.
+
+(* the defect of the include loop, concrete (confirmed on the library): module includes s1, s2; s2 includes s1, s3 *)
+Lemma sub_skip_witness :
+  includes_order_gen true false [[1; 2]; []; [1; 3]; []]%nat = Ok [1; 2]%nat /\
+  includes_order_gen false false [[1; 2]; []; [1; 3]; []]%nat = Ok [1; 2; 3]%nat /\
+  sreach [[1; 2]; []; [1; 3]; []]%nat 3 /\ wf_incs [[1; 2]; []; [1; 3]; []]%nat.
+Proof.
+  split; [vm_compute; reflexivity|]. split; [vm_compute; reflexivity|]. split.
+  - apply (sr_step _ 2%nat 3%nat); [apply sr_main; cbn; auto|cbn; auto].
+  - intros k j Hj. unfold inc_of in Hj.
+    destruct k as [|[|[|[|k]]]]; cbn in Hj; repeat (destruct Hj as [<-|Hj]; [cbn; lia|]); try destruct Hj.
+    destruct k; destruct Hj.
+Qed.
+
+(* injected includes as the library orders them (confirmed on the library): chain m -> s1 -> s2 -> s3 and diamond *)
+Lemma includes_order_examples :
+  includes_order false [[1]; [2]; [3]; []]%nat = Ok [1; 3; 2]%nat /\
+  includes_order false [[1; 2]; [3]; [3]; []]%nat = Ok [1; 2; 3]%nat /\
+  includes_order true [[1]; [2]; [3]; []]%nat = Err E_SUB11 /\
+  includes_order true [[3; 1; 2]; [2]; []; [1; 2]]%nat = Ok [3; 1; 2]%nat.
+Proof. repeat split; vm_compute; reflexivity. Qed.
